@@ -20,6 +20,7 @@ func init() {
 			"C01.3 lock pairing for all mutex classes (no exit holding a lock, no unlock of an unheld lock); C01.4 no lock re-entry on any call path; " +
 			"C01.5 the packet-reader path (serve → processPacket → handlers, synchronous edges) performs no blocking operation besides the socket read and mutex acquisition; " +
 			"C01.6 census of explicit panic sites reachable from the packet path: each is discharged by a visible guard or listed as an assumed invariant; " +
+			"C01.8 bucketIndex (which panics on the root ID) is called only under id ≠ rootID / id ≠ own ID established in the caller or its callers; Server.addNode reaches table.addNode (whose refusal it turns into a panic under Server.mu) only with room in the bucket: Len < k, or the eviction loop stopped because its callback saw Len < k; " +
 			"C01.7 no library code performs a blocking operation (channel send/receive, blocking select, WaitGroup/limiter wait, sleep, socket I/O) while Server.mu is held in any mode, on any call path - the reader needs that lock for every datagram.",
 		NotDecided: "absence of all panics (integer arithmetic, allocation, third-party code such as bencode/immutable/log), liveness under load, scheduler fairness, behaviour of user hooks.",
 		Assume: []string{
@@ -34,6 +35,7 @@ func init() {
 			{ID: "C01.5", Doc: "reader path never blocks", Floor: 5, Run: c01r5},
 			{ID: "C01.6", Doc: "panic-site census on the packet path", Floor: 8, Run: c01r6},
 			{ID: "C01.7", Doc: "nothing blocks while Server.mu is held", Floor: 8, Run: c01r7},
+			{ID: "C01.8", Doc: "the table's self-check panics are unreachable from wire data: room in the bucket before table.addNode; id ≠ rootID before bucketIndex", Floor: 5, Run: func(w *World, rr *RuleRun) { w.checkAddNodeRoom(rr); w.checkRootGuards(rr) }},
 		},
 	})
 }
